@@ -81,6 +81,14 @@ def gen_case(rng: random.Random, tier: str) -> dict:
             # the item is selected by the input values of its run
             fnode = rng.choice([nd["name"] for nd in inner["nodes"] if nd["kind"] == "fn"])
             fault = {"kind": "raise", "node": fnode, "run_pred": {mapped[j]: rng.choice(lists[mapped[j]])}, "fid": 0, "when": rng.choice(["before", "after"]), "exc": rng.choice(["plain", "plain", "noargs", "keyerror"])}
+    fault2 = None
+    if fault and rng.random() < 0.5:
+        # a second failing item (another value of the same mapped parameter): in raise mode the error of the FIRST failing item in
+        # input order propagates, whichever of them fails first in time
+        j2 = mapped.index(next(iter(fault["run_pred"])))
+        others = [v for v in lists[mapped[j2]] if v != fault["run_pred"][mapped[j2]]]
+        if others:
+            fault2 = dict(fault, run_pred={mapped[j2]: rng.choice(others)}, fid=1, node=rng.choice([nd["name"] for nd in inner["nodes"] if nd["kind"] == "fn"]))
     via = rng.choice(["runner_map", "node", "node"])
     outer = {"rename_in": rng.random() < 0.3, "rename_out": rng.random() < 0.3, "consumer": rng.random() < 0.5,
              "rename_after_map": rng.random() < 0.4,  # with_inputs/with_outputs called after map_over instead of before
@@ -96,7 +104,7 @@ def gen_case(rng: random.Random, tier: str) -> dict:
             vals = lists[mapped[0]]
             sch["arg_delay"] = {"param": mapped[0], "table": {str(v): (len(vals) - t) * 3 if style == "reverse" else 2 for t, v in enumerate(vals)}}
         cfgs.append({"schedule": sch, "shuffle": rng.randrange(1 << 30) if rng.random() < 0.2 else None, "max_concurrency": rng.choice([None, None, 1, 2, 3])})
-    return {"inner": inner, "map_mode": mode, "lists": lists, "broadcast": broadcast, "clone": clone, "error_handling": rng.choice(["raise", "continue"]), "fault": fault, "via": via, "outer": outer, "async": cfgs, "map_order": map_order}
+    return {"inner": inner, "map_mode": mode, "lists": lists, "broadcast": broadcast, "clone": clone, "error_handling": rng.choice(["raise", "continue"]), "fault": fault, "fault2": fault2, "via": via, "outer": outer, "async": cfgs, "map_order": map_order}
 
 
 def _prod(xs) -> int:
@@ -184,7 +192,7 @@ def run_case(doc: dict) -> dict:
     ispec = _inner_spec(doc, for_runner_map=(doc["via"] == "runner_map"))
     mapped = inner["mapped"]
     cs = combos(doc)
-    faults = [doc["fault"]] if doc.get("fault") else []
+    faults = [f for f in (doc.get("fault"), doc.get("fault2")) if f]
     viol: list = []
     rts = []
     sigs = []
@@ -245,7 +253,7 @@ def run_case(doc: dict) -> dict:
     res["nontrivial"] = nontrivial
     res["shape"] = digest([ispec["nodes"], doc["via"], doc["outer"]], 8)
     res["sched"] = digest(sigs, 6)
-    res["sig"] = digest([res["shape"], canon(doc["lists"]), doc["map_mode"], canon(doc["clone"]), canon(doc["fault"]), doc["error_handling"], res["sched"]], 8)
+    res["sig"] = digest([res["shape"], canon(doc["lists"]), doc["map_mode"], canon(doc["clone"]), canon(doc["fault"]), canon(doc.get("fault2")), doc["error_handling"], res["sched"]], 8)
     res["hdigest"] = hist_digest(rts)
     return res
 
@@ -379,9 +387,14 @@ def shrink_candidates(doc: dict):
             if c.get("fault") and not any(c["fault"]["run_pred"].get(mm) in c["lists"][mm] for mm in inner["mapped"] if mm in c["fault"]["run_pred"]):
                 c["fault"] = None
             yield c
+    if doc.get("fault2"):
+        c = copy.deepcopy(doc)
+        c["fault2"] = None
+        yield c
     if doc.get("fault"):
         c = copy.deepcopy(doc)
-        c["fault"] = None
+        c["fault"] = c.get("fault2")
+        c["fault2"] = None
         yield c
     if doc["clone"] is not False:
         c = copy.deepcopy(doc)
